@@ -168,6 +168,7 @@ Finish(s, f, hashId, refId, size, nbytes, m) ==
      /\ Chk("C03", \A p \in ptrs : (p[1] = ids /\ p[2] = salt[s]) => p[4] = size)
      /\ Chk("C14", /\ size = Bytes(ids) /\ m.total = Bytes(ids)
                    /\ m.new + m.dedup = m.total /\ m.nc + m.dc = m.tc /\ m.tc = Len(ids)
+                   /\ m.gdedup <= m.dedup                     \* bytes credited to global dedup are deduplicated bytes
                    /\ dec[f].new \cup dec[f].dedup = 0..(Len(ids) - 1)
                    /\ m.new = dec[f].nbytes /\ m.dedup = dec[f].dbytes
                    /\ m.nc = Cardinality(dec[f].new) /\ m.dc = Cardinality(dec[f].dedup)
@@ -214,6 +215,13 @@ CacheIndex(s, xs) ==
      /\ Chk("C11", status[s] = "ok" => \A x \in sessPut[s] : <<x, xorbs[x]>> \in entries)
      /\ cache' = entries
   /\ UNCHANGED <<clen, content, fsess, salt, status, failed, xorbs, stored, sessPut, shardOpen, recs, finished, dec, up, ptrs>>
+
+(* a global-dedup query of the session (a chunk eligible by hash, or the first chunk of a file): the store answers
+   with a shard only if some xorb it holds contains the chunk; the shard lands in the user's local shard cache *)
+GlobalQuery(s, chunk, res) ==
+  /\ s \in DOMAIN status
+  /\ Chk("C01", res = "hit" => \E x \in stored : \E i \in 1..Len(xorbs[x]) : xorbs[x][i] = chunk)
+  /\ UNCHANGED vars
 
 StoreCheck(x, recomputed, seekOk, streamOk, decodes, cs) ==
   /\ Chk("C02", decodes /\ seekOk /\ streamOk /\ recomputed = x)
